@@ -51,14 +51,18 @@ def run(cfg, chunks, ctx=None, reader=None, states: set | None = None):
         except Exception as ex:  # recorded, never swallowed silently: C14 decides on it
             err = ex
             break
+        poisoned = False
         for f in frames:
             if f is POISON:
                 out.append({"bytes": b"<object appended by the caller to an earlier result list>", "valid": False, "payload": None, "fcs": None, "length": None, "type": None,
                             "seg": None, "dst": None, "src": None, "ctrl": None, "hcs": None, "poison": True})
                 kept.append(None)
-                continue
+                poisoned = True
+                break
             out.append(observe(f))
             kept.append(f)
+        if poisoned:
+            break  # the result list is shared between calls: everything after this point is meaningless
         if isinstance(frames, list):
             frames.append(POISON)  # the caller owns the returned list; a list shared between calls would hand this back later
         if states is not None:
